@@ -336,6 +336,17 @@ def check_extend_cli(chk):
                                            electron_spellings=("e-",), dup_rate=0.25, window_rate=0.0)
         if not reacs:
             continue
+        # near-duplicates: the same species and type with temperature limits 0.04 K apart are two different reactions (two fits
+        # of one process over adjoining windows); both have to survive --remove-duplicate
+        if n == 1 or rng.random() < 0.3:
+            import copy
+            base = rng.choice(reacs)
+            base.tmin, base.tmax = 10.0, 300.0
+            twin = copy.copy(base)
+            twin.tmin, twin.tmax = rng.choice([(10.04, 300.0), (10.0, 300.04), (9.96, 299.96)])
+            twin.idx = max(r.idx for r in reacs) + 1
+            reacs.append(twin)
+            chk.hist["extend-near-duplicate"] += 1
         d = chk.scratch / f"extend{n}"
         d.mkdir(parents=True, exist_ok=True)
         (d / "naunet_config.toml").write_text('[chemistry]\n[chemistry.symbol]\ngrain = "GRAIN"\nsurface = "#"\nbulk = "@"\n')
@@ -343,7 +354,7 @@ def check_extend_cli(chk):
         present = sorted({s.name for r in reacs for s in r.re + r.pr})
         remove = rng.sample(present, rng.randint(0, min(2, len(present))))
         keep = rng.sample(present, rng.randint(1, len(present))) if rng.random() < 0.4 else []
-        dedup = rng.random() < 0.6
+        dedup = rng.random() < 0.6 or n == 1
         deplete = rng.random() < 0.5
         args = "in.naunet out.naunet"
         if keep:
@@ -358,6 +369,9 @@ def check_extend_cli(chk):
         if n == 0:      # depletion followed by desorption of the species it created, always
             deplete, desorb, keep, remove = True, ["thermal", "cosmic-ray"], [], []
             args = "in.naunet out.naunet --append-depletion" + (" --remove-duplicate" if dedup else "")
+        if n == 1:      # de-duplication alone, on a file that holds a near-duplicate pair
+            deplete, desorb, keep, remove, dedup = False, [], [], [], True
+            args = "in.naunet out.naunet --remove-duplicate"
         for o in desorb:
             args += f" --append-{o}-desorption"
         cwd = os.getcwd()
@@ -376,7 +390,7 @@ def check_extend_cli(chk):
         chk.count(("extend", n), nontrivial=True)
         chk.hist["extend-cli"] += 1
         # reference
-        cur = [{"re": [s.name for s in r.re], "pr": [s.name for s in r.pr], "sig": r.sig()} for r in reacs]
+        cur = [{"re": [s.name for s in r.re], "pr": [s.name for s in r.pr], "sig": r.sig(), "win": (r.tmin, r.tmax, r.rtype)} for r in reacs]
         if keep:
             cur = [r for r in cur if all(s in keep for s in r["re"] + r["pr"])]
         if remove:
@@ -384,7 +398,7 @@ def check_extend_cli(chk):
         if dedup:
             seen, out = set(), []
             for r in cur:
-                k = (tuple(sorted(r["re"])), tuple(sorted(r["pr"])))
+                k = (tuple(sorted(r["re"])), tuple(sorted(r["pr"])), r["win"])
                 if k in seen:
                     continue
                 seen.add(k)
@@ -461,7 +475,9 @@ def mode_key(r, mode):
     if mode in ("brief", "minimal"):
         return rp
     if mode == "short":
-        return rp + (f"{r['tmin']:7.1f}", f"{r['tmax']:7.1f}", r["type"])
+        # the printed type is the *name* of the member of the reading class's own enumeration (KIDA_MA, UMIST_TWOBODY …): rows
+        # of different databases never print alike, whatever their numeric type ("db" is set for merged lists only)
+        return rp + (f"{r['tmin']:7.1f}", f"{r['tmax']:7.1f}", r["type"], r.get("db"))
     return rp + (r["tmin"], r["tmax"])  # default: class; the type is compared with the UNKNOWN rule
 
 
@@ -541,6 +557,25 @@ def run_c15(argv):
                                   for i, (r, f) in enumerate(zip(lst, forms))))
             build = lambda: Network(filelist=[str(kf)], fileformats=["kida"])
             chk.hist["from-kida-file"] += 1
+        # the same list merged from two databases: the first rows from a KIDA file, the rest from a UMIST file (sibling reaction
+        # classes).  A reaction present once per database is a repeat like any other.
+        UF = {100: "NN", 101: "CP", 102: "PH"}
+        mixed = (n == len(corpus) + 1) or (n > len(corpus) + 1 and lst and rng.random() < 0.25 and all(r["type"] in KF for r in lst)
+                                            and all(len(r["re"]) <= 2 and len(r["pr"]) <= 4 for r in lst))
+        if n == len(corpus) + 1:
+            lst = [R(["H", "CO"], ["HCO"], 100), R(["C", "O"], ["CO"], 100), R(["OH", "H"], ["H2O"], 101),
+                   R(["CO", "H"], ["HCO"], 100), R(["C", "O"], ["CO"], 100, 10.0), R(["H", "CO"], ["HCO"], 100), R(["H", "OH"], ["H2O"], 101)]
+        if mixed:
+            from .codec_checks import enc_kida, enc_umist
+            cut = 3 if n == len(corpus) + 1 else rng.randint(1, max(1, len(lst) - 1))
+            as_abs = lambda r: {"re": list(r["re"]), "pr": list(r["pr"]), "pseudo_re": [], "pseudo_pr": [], "alpha": 1e-10, "beta": 0.0,
+                                "gamma": 0.0, "tmin": r["tmin"], "tmax": r["tmax"]}
+            lst = [dict(r, db="kida" if i < cut else "umist") for i, r in enumerate(lst)]
+            kf, uf = chk.scratch / f"mix{n}.kida", chk.scratch / f"mix{n}.umist"
+            kf.write_text("".join(enc_kida(as_abs(r), i, KF[r["type"]]) + "\n" for i, r in enumerate(lst[:cut])))
+            uf.write_text("".join(enc_umist(as_abs(r), cut + i, UF[r["type"]]) + "\n" for i, r in enumerate(lst[cut:])))
+            build = lambda: Network(filelist=[str(kf), str(uf)], fileformats=["kida", "umist"])
+            chk.hist["from-two-databases"] += 1
         try:
             with silenced():
                 net = build()
